@@ -141,6 +141,14 @@ def interpreter_arms(O):
                         if not (got.root == src.root):
                             R.fail(O, p, "a row from the loop body is not passed up unchanged", extra=cond + [it == bv64(0)])
                     R.prove(O, p, eng.tag_of(p.ret, None) == it, "an error of the body is an error of the loop", extra=cond)
+                    # ... and the iterator is as before the call: nothing of the loop's state is taken out, replaced or
+                    # reset on the way to the body, so the run can go on after the error item
+                    r_err, _ = O.solve(list(p.pc) + cond + [it == bv64(1)], want_model=False)
+                    if r_err == "sat":
+                        ws = p.state.extra.get("writes", [])
+                        if ws:
+                            R.fail(O, p, "%s: on an error of the body the iterator's own state was written (%s)" % (name, ws[0][1]),
+                                   extra=cond + [it == bv64(1)])
                 else:
                     R.prove(O, p, z3.And(it == bv64(0), ot == bv64(0)), "the body is left only when it is exhausted", extra=cond)
                     R.prove(O, p, nt == (S["EndIterateInner"] if name == "IterateInner" else S["StartWhile"]),
